@@ -271,6 +271,13 @@ pub fn check(c: &Case) -> Checked {
 }
 
 fn exec(c: &Case, idx: usize, out: &mut Out) -> bool {
+    let dq: Vec<&str> = super::progcase::dyn_quarantined(c).into_iter().filter(|q| *q != "modulo").collect();
+    if !dq.is_empty() {
+        for q in dq {
+            out.quarantined(idx, q);
+        }
+        return false;
+    }
     let r = check(c);
     out.count("state_accesses_checked", r.accesses);
     out.count("state_words_compared", r.state_words_compared);
